@@ -16,7 +16,9 @@ import cfdp_family
 import common
 import tlc
 
-TIERS = {"quick": dict(Depth=2), "thorough": dict(Depth=3)}
+# quick: every request sequence up to depth 2; thorough: the depth-4 graph, every EDGE once along a shortest path
+# (all sequences of depth 3 are 3.4 million temp-tree rebuilds: hours, for no new (state, request) pair)
+TIERS = {"quick": dict(Depth=2, mode=[]), "thorough": dict(Depth=4, mode=["edges"])}
 
 
 def run(prop, tier, seed):
@@ -41,7 +43,7 @@ def run(prop, tier, seed):
     gpath = os.path.join(c.work, "graph.json")
     with open(gpath, "w") as f:
         json.dump({"edges": edges, "init": init}, f)
-    out = json.loads(common.run_bin("fs", ["reqs", gpath, t["Depth"]], timeout=7200))
+    out = json.loads(common.run_bin("fs", ["reqs", gpath, t["Depth"]] + t["mode"], timeout=7200))
     part1 = {
         "states": r.distinct, "transitions": r.generated,
         "request_sequences_replayed": out["sequences"], "requests_executed": out["requests"],
